@@ -1225,9 +1225,34 @@ func (w *qWorld) opRestart(op Op) {
 	if w.n == nil {
 		return
 	}
-	if op.A == 0 {
+	if op.A >= 2 {
+		// quiet variant: every consumer first lowers RDY to 0, so no delivery
+		// pump can take anything while the channels are flushed (this keeps the
+		// known finding C05-pump-takes-message-at-exit out of the way)
 		w.settleIfBurst()
-	} else {
+		for _, co := range w.cons {
+			if co.Subscribed && !co.Dead && !co.Closing && co.Rdy != 0 {
+				w.setRdy(co, 0)
+			}
+		}
+		w.settle()
+		w.afterSettle()
+		w.beginStep()
+		rc.Probe("quiet_exit")
+	}
+	switch op.A {
+	case 0, 2:
+		w.settleIfBurst()
+	case 3:
+		// publishes in progress while the shutdown is requested
+		for i := int64(0); i < op.C; i++ {
+			if f := w.opPub(Op{Uid: op.Uid*16 + int(i), Kind: "pub", A: i % 3, B: op.B, C: []int64{0, 1, 3, 4}[int(i+op.B)%4], D: 3}); f != nil {
+				w.pending = append(w.pending, f)
+			}
+		}
+		w.inBurst = true
+		rc.Probe("exit_inside_burst")
+	default:
 		rc.Probe("exit_inside_burst")
 	}
 	rc.Logf("---- graceful exit requested (pending=%d)", len(w.pending))
@@ -1252,6 +1277,20 @@ func (w *qWorld) opRestart(op Op) {
 		}
 	}
 	w.pending = nil
+	// clients give up on a daemon that is shutting down (a connection accepted
+	// just as the TCP server closes its clients is otherwise never closed by
+	// nsqd and Exit waits for it indefinitely - DESIGN.md, observations)
+	synctest.Wait()
+	for _, pc := range w.pubConns {
+		if pc != nil {
+			pc.Close()
+		}
+	}
+	for _, co := range w.cons {
+		if !co.Dead {
+			co.cl.Close()
+		}
+	}
 	<-exitDone
 	w.n = nil
 	synctest.Wait()
